@@ -177,6 +177,11 @@ bool Parser::parseStatement(StatementSyntax*& stmt, StatementContext stmtCtx)
                         }
                         expr->extKwTkIdx_ = extKwTkIdx;
                     }
+                    else {
+                        // An empty statement has no place for the keyword.
+                        diagReporter_.UnexpectedGNUExtensionFlag();
+                        return false;
+                    }
                     break;
 
                 case SyntaxKind::DeclarationStatement:
